@@ -174,6 +174,10 @@ pub struct RunLog {
     pub probes: Vec<ProbeRec>,
     pub replies: Vec<ReplyRec>,
     pub setup_error: Option<String>,
+    /// buffer sizes as the library reports them: (ConfigBuilder::rx_len, tx_len, Session::max_rx_packet_size, max_tx_packet_size)
+    pub reported_sizes: Option<(usize, usize, usize, usize)>,
+    /// the session was configured from one backing buffer (`ConfigBuilder::from_buffer`)
+    pub from_one_buffer: bool,
     /// the program ended with the benign continuation (reconnect + poll until idle)
     pub epilogue: bool,
     /// the generator was allowed to make the broker violate the protocol
@@ -1068,18 +1072,24 @@ pub fn run_case(cfg: &CaseCfg, seed: u64, driver: &mut dyn Driver, max_steps: us
         // budget of one operation covers the receive buffer and the arena four times over
         w.budget_calls = w.budget_calls.max(4096 + 8 * (cfg.rx + cfg.tx));
     }
-    let mut rx = vec![0u8; cfg.rx];
-    let mut tx = vec![0u8; cfg.tx];
+    // every third configuration hands the library one backing buffer to split itself
+    // (`ConfigBuilder::from_buffer`), the others two separate ones
+    let one_buffer = (cfg.rx + cfg.tx + cfg.client_id.len()) % 3 == 0;
+    let mut rx = vec![0u8; if one_buffer { cfg.rx + cfg.tx } else { cfg.rx }];
+    let mut tx = vec![0u8; if one_buffer { 0 } else { cfg.tx }];
     let will_props: Vec<Property<'_>> = cfg
         .will
         .as_ref()
         .map(|w| w.props.iter().map(to_property).collect())
         .unwrap_or_default();
     let mut ex = Exec::new(world.clone(), cfg.clone(), driver, max_steps);
-    let builder = build_config(cfg, &mut rx, &mut tx, &will_props);
+    let builder = build_config(cfg, one_buffer, &mut rx, &mut tx, &will_props);
+    ex.log.from_one_buffer = one_buffer;
     match builder {
         Ok(b) => {
+            let (brx, btx) = (b.rx_len(), b.tx_len());
             let mut session = Session::new(b);
+            ex.log.reported_sizes = Some((brx, btx, session.max_rx_packet_size(), session.max_tx_packet_size()));
             ex.run(&mut session);
         }
         Err(e) => ex.log.setup_error = Some(e),
@@ -1089,6 +1099,7 @@ pub fn run_case(cfg: &CaseCfg, seed: u64, driver: &mut dyn Driver, max_steps: us
 
 fn build_config<'a>(
     cfg: &'a CaseCfg,
+    one_buffer: bool,
     rx: &'a mut [u8],
     tx: &'a mut [u8],
     will_props: &'a [Property<'a>],
@@ -1097,7 +1108,14 @@ fn build_config<'a>(
     // overridden later, a value set twice (chosen by the configuration itself, so that a replay
     // builds the same way)
     let variant = (cfg.client_id.len() as u64 + cfg.keepalive as u64 + cfg.session_expiry as u64 + cfg.rx as u64) % 4;
-    let mut b = ConfigBuilder::new(Buffers::new(rx, tx));
+    let mut b = if one_buffer {
+        if ConfigBuilder::from_buffer(&mut [0u8; 4][..], 5).is_ok() {
+            return Err("from_buffer accepted a receive size larger than the buffer".into());
+        }
+        ConfigBuilder::from_buffer(rx, cfg.rx).map_err(|e| format!("from_buffer: {e:?}"))?
+    } else {
+        ConfigBuilder::new(Buffers::new(rx, tx))
+    };
     if variant == 1 {
         b = b.client_id("default-id").map_err(|e| format!("{e:?}"))?.keepalive_interval(7).session_expiry_interval(77);
     }
